@@ -58,7 +58,7 @@ PROPS["C03"] = {
             "EVERY write and fsync the victim issues on the log, and at each such point two crash images are taken (log as written so far; log cut at the last fsync); every image is "
             "recovered with the real InitStorage and must equal the model state before the victim plus the first r row operations for some r in 0..n (other tables untouched, catalog intact), "
             "then 1-3 follow-up multi-row inserts run on the recovered files and are compared with the model continued from that prefix. "
-            "One case in five starts with 7-11 tables (multi-page catalog). One case in six has a restart inside the history (burst of CREATE TABLEs, restart, root-moving INSERT); follow-up inserts go into every table. Non-trivial: a victim with >=3 row operations whose images recovered to at least two different prefixes r (e.g. r=0 before the log write and r=n after the write but before its fsync; proper prefixes 0<r<n are labelled separately); distinct by case JSON.",
+            "One case in five starts with 7-11 tables (multi-page catalog). One case in six has a restart inside the history (burst of CREATE TABLEs, restart, root-moving INSERT); follow-up inserts go into every table. After the follow-up inserts the process ends (cleanly / by death, alternating) and starts a second time; the state must be the same. Non-trivial: a victim with >=3 row operations whose images recovered to at least two different prefixes r (e.g. r=0 before the log write and r=n after the write but before its fsync; proper prefixes 0<r<n are labelled separately); distinct by case JSON.",
     "technique": "fault injection at every log write/fsync call of generated victim statements (rapid + build-tag hook), prefix-state oracle from a reference model",
     "level_text": "All log-write crash points of each generated victim statement are enumerated (exhaustive per statement, both tail-cut variants) and recovered with the real code; histories and victims are random.",
     "level_note": "Crash = process death at a write-call boundary (the property's own granularity); a torn individual write() is not generated. Trusted: reference model with prefix semantics, hook placement (before each Write/Sync in wal.flush).",
@@ -150,7 +150,7 @@ PROPS["C08"] = {
             "(INT/BIGINT extremes, 2^53+1, empty strings, NUL/0xFF/invalid UTF-8 bytes, NULLs), rows built to encode to exactly 400 bytes (must be accepted) and 401 bytes (must be refused), wrong-kind values, INT beyond 32 bits; "
             "each statement as SQL text when the dialect can express it, else as direct statement values. After every statement SELECT * must equal the model bit-for-bit (refused statements: error and unchanged table); "
             "the comparison is repeated after flush + cache shrink to 6 pages + scan of another table (eviction, reload from disk), after a clean restart, (one case in three) after USE of another database and back, and (phase 2, unflushed) after crash + recovery. "
-            "Operations include single-row DELETEs; the case ends with one more clean restart after the crash + recovery. One INSERT in three names all columns in a permuted order. Non-trivial: a 400-byte boundary row with at least one reload, or a refused value placed in a column that is not the first; distinct by case JSON.",
+            "Operations include single-row DELETEs; the case ends with one more clean restart after the crash + recovery. One INSERT in three names all columns in a permuted order. Pairs of UPDATEs whose texts differ only in white space inside the string literal. Non-trivial: a 400-byte boundary row with at least one reload, or a refused value placed in a column that is not the first; distinct by case JSON.",
     "technique": "property-based round-trip testing (rapid) across four observation points (memory, reloaded page, restart, crash recovery) against a reference model with its own size/validity rules",
     "level_text": "Random search biased to encoding boundaries; the 400/401 boundary is computed by the model's own size formula, not taken from the code. Search, not proof.",
     "level_note": "Trusted: model.EncodedSize / ValidateValue (written from the documented row format), exact Go-value comparison. Multi-row failing statements are C14's business and not generated here.",
@@ -163,7 +163,7 @@ PROPS["C14"] = {
             "and INSERT with column-count mismatch / type mismatch / INT out of range / oversize row where the offending row sits at every index k of n rows, UPDATE with a bad value, UPDATE that becomes oversize only at the k-th matching row, CREATE TABLE whose k-th column the catalog cannot record, DELETE/UPDATE whose WHERE cannot be evaluated for a later row, the table addressed in another letter case (the last three are the implementation's choice to refuse: checked as implication only). "
             "Oracle: an error is returned and every table, row id and the catalog equal the model of the history, immediately, after crash + recovery of the files as they are, and after (optional tick +) clean restart; then a valid insert per table must work. "
             "A deviation that is exactly 'the row operations before the offending one stayed applied' is classified as the listed finding C14-multirow-partial-apply (counted, not raised); anything else is a violation. "
-            "Every shard also runs one fixed huge VALID statement (3000-5500 row INSERT/UPDATE, 7000-12000 row DELETE) under the implication-only oracle (if it fails, nothing stays behind). Further implication-only kind: CREATE TABLE naming a column twice. After a failure on an unknown table half of the cases create that table in the same session, fill it and compare. Non-trivial: multi-row statement with the offending row not first, or unflushed changes present before the failing statement; distinct by case JSON.",
+            "Every shard also runs one fixed huge VALID statement (3000-5500 row INSERT/UPDATE, 7000-12000 row DELETE) under the implication-only oracle (if it fails, nothing stays behind). Further implication-only kind: CREATE TABLE naming a column twice. After a failure on an unknown table half of the cases create that table in the same session, fill it and compare. One case in four issues a refused USE before the failing statement. Non-trivial: multi-row statement with the offending row not first, or unflushed changes present before the failing statement; distinct by case JSON.",
     "technique": "property-based testing (rapid) of failing statements against a reference model, observed at three points (memory, crash recovery, restart)",
     "level_text": "Random search over states and failing statements with the offending row at every position. Search, not proof.",
     "level_note": "Trusted: model validity classification (model.Apply) and prefix semantics. The listed finding is recognised by its exact after-state; a different residue is reported.",
@@ -175,7 +175,7 @@ PROPS["C16"] = {
     "rule": "rapid-generated histories of 25-90 valid statements over up to 14 tables (every statement's dirty set fits the cache - the property's precondition: INSERTs of at most 4*(cache-6) rows, UPDATE/DELETE touching at most cache-6 rows - while the tables themselves grow far beyond the cache), executed twice through the real engine: "
             "with the default cache of 10000 pages and with a cache of a generated capacity 12-40 pages (hook VerifSetCacheSize) and a flush after every statement. Oracle (differential + model): every statement has the same outcome, "
             "'cache full' while the dirty set fits is a violation, the cache never exceeds its capacity, no page stays dirty after a flush, and at the end every table and both catalog tables are identical row by row including row ids; both runs also equal the reference model. "
-            "One case in 25 grows one table through the third tree level (1150+ rows) with single-row work at its right edge; every small-cache statement runs under a 30 s watchdog (a statement that hangs is a violation). Non-trivial: the small-cache run re-read pages from the data file during reads (counted through the cache.set hook) on a database of at least twice the cache size; distinct by case JSON.",
+            "One case in 25 grows one table through the third tree level (1150+ rows) with single-row work at its right edge; every small-cache statement runs under a 30 s watchdog (a statement that hangs is a violation). The small-cache run ends with a close + reopen (USE away and back) and another comparison; a 'rewrite' profile dirties the same pages in consecutive flush intervals. Non-trivial: the small-cache run re-read pages from the data file during reads (counted through the cache.set hook) on a database of at least twice the cache size; distinct by case JSON.",
     "technique": "differential property-based testing (rapid): same history under two cache configurations, plus reference model",
     "level_text": "Random differential search over histories and cache capacities; finds eviction of dirty pages, stale node pointers kept across an eviction, decode/encode drift seen end-to-end. Search, not proof.",
     "level_note": "Trusted: VerifSetCacheSize hook (replaces the LRU while nothing is dirty), the per-statement dirty-set bound (rows/4 leaves + path + catalog <= capacity, deliberately loose).",
@@ -212,7 +212,7 @@ PROPS["C15"] = {
     "rule": "operation sequences over LRUCache.set (clean or already-dirty page, same or fresh page object) / get / markDirty / markClean, run against the real cache and a list-based reference model written from the property's text; after EVERY step the boolean of set, "
             "(page identity, found) of get, resident key set, recency order (read from the internal list), index/list consistency and size <= capacity are compared. (a) bounded-exhaustive: all sequences of depth 5 (thorough: 6) over capacities 1-3 with capacity+1 keys "
             "(alphabet 10-20 operations, split over the shards by first operation); (b) rapid: sequences of 20-400 operations at capacities 1-6 and 200-2000 operations at capacities 5-64. "
-            "Pages are a mix of leaf and internal nodes; one random case in a hundred uses capacities 1025-2500 with run-length insertions. The reference model owns its dirty flags (compared with the page's own flag after every step); the LSN of a dirty transition varies, downwards too. Lookups come in bursts of up to 300. Keys are page offsets (uint64); scans over consecutive pages are an operation. Non-trivial: the sequence performed an eviction that had to skip a dirty entry, or an insertion that was refused; distinct by sequence JSON.",
+            "Pages are a mix of leaf and internal nodes; one random case in a hundred uses capacities 1025-2500 with run-length insertions. The reference model owns its dirty flags (compared with the page's own flag after every step); the LSN of a dirty transition varies, downwards too. Lookups come in bursts of up to 300. Keys are page offsets (uint64); scans over consecutive pages are an operation. Second part: random fetch / dirty / flush on a real file store with a 4-24 page cache; a page handed out must be the object cached for its offset, each page cached once, fetch refused only when the cache is full of dirty pages. Non-trivial: the sequence performed an eviction that had to skip a dirty entry, or an insertion that was refused; distinct by sequence JSON.",
     "technique": "model-based property testing (rapid) + bounded-exhaustive enumeration of operation sequences against a reference LRU",
     "level_text": "Exhaustive to depth 5/6 in small scopes, random beyond. Search, not proof.",
     "level_note": "Trusted: the reference model in the test (list with dirty flags). In-package: reads LRUCache.list and .cache directly.",
@@ -226,7 +226,7 @@ PROPS["C11"] = {
             "close/reopen and crash + WAL recovery; after EVERY operation a page-graph walker written from the definition checks the catalog trees and every user tree of the file: keys strictly ascending within and across leaves, every key inside the bounds given by its ancestors' separators, "
             "separators strictly ascending, all leaves at one depth, no page reachable twice over all trees, no node over capacity and every node encodes to 4096 bytes, left-to-right sibling chain = leaves in tree order = reverse of the right-to-left chain, every live key found by findCell from the root and no tombstoned one, live keys = what the history implies. "
             "Plus a fixed history of 1400 logged rows in one table with reopen and crash + recovery in between (start-up replay over a three-level tree; shard 3), and a direct BTree.insert driver: 200 000 ascending keys into the in-memory store (4 levels; shard 0), 3 000 keys on a file store with flush + cold cache between batches (shard 1; thorough: 200 000 on file, shard 2), walker run at growing intervals. "
-            "One history in five runs over 7-11 trees (multi-page catalog). Tree names are chosen so that several are proper prefixes of names created earlier. Non-trivial: a tree of height >= 2 with >= 3 leaves and a reload between two splits of the same tree; distinct by history JSON.",
+            "One history in five runs over 7-11 trees (multi-page catalog). Tree names are chosen so that several are proper prefixes of names created earlier. Operation 'wipe': every live row of a tree deleted in one go. Non-trivial: a tree of height >= 2 with >= 3 leaves and a reload between two splits of the same tree; distinct by history JSON.",
     "technique": "stateful property-based testing (rapid) with a structural invariant walker after every step; deterministic large-tree driver",
     "level_text": "Every reachable tree state of the generated histories is checked against the full shape invariant; deep trees (3-4 levels) are reached by the direct driver. Search, not proof.",
     "level_note": "Trusted: the walker (in-package, reads node structs). Keys ascend (engine's shared counter / WAL replay); random-order insertion is outside the property.",
@@ -263,7 +263,7 @@ PROPS["C13"] = {
     "rule": "rapid-generated schedules: 6-14 statements (CREATE TABLE, INSERT, UPDATE, DELETE, SELECT) run through a Session with the REAL 100 ms flush timer in a binary built with -race; for up to 4 generated statements the verif hook parks the session goroutine for 120-350 ms (1-3 ticks) "
             "at the statement's log write (all its page changes done, log append pending) or, for statements that do not log (CREATE TABLE, SELECT), at a generated page lookup; generated idle gaps of 0-150 ms let ticks land before, inside and after statements. "
             "Oracles: (1) monitor: while a statement is parked no flush, page write or header write may happen on another goroutine; (2) every race-detector report with one side inside engine.EvaluateCreateTable/Insert/Update/Delete/Select and the other inside the flusher is a violation "
-            "(other reports, e.g. USE racing the timer, are counted as out of scope); (3) table contents equal the model afterwards. One schedule in eight is a bulk schedule: 520-1100 rows, then whole-table UPDATE/DELETE/SELECT statements held open at an early page lookup. Half of the SELECTs are chains of one or two joins (several table fetches inside one bracket). Non-trivial: a DDL/DML statement was parked and the flusher demonstrably waited (it flushed within 60 ms after the park ended); distinct by schedule JSON.",
+            "(other reports, e.g. USE racing the timer, are counted as out of scope); (3) table contents equal the model afterwards. One schedule in eight is a bulk schedule: 520-1100 rows, then whole-table UPDATE/DELETE/SELECT statements held open at an early page lookup. Half of the SELECTs are chains of one or two joins (several table fetches inside one bracket). One step in ten is a statement on a table that does not exist (sent through the session). Non-trivial: a DDL/DML statement was parked and the flusher demonstrably waited (it flushed within 60 ms after the park ended); distinct by schedule JSON.",
     "technique": "schedule-controlled testing: generated delay injection through build-tag hooks + happens-before race detection (-race) as a sanitizer, scoped to the property",
     "level_text": "The weakest check: a few dozen harness-owned schedules; happens-before detection does not depend on the observed timing, parking makes the overlapping accesses actually occur. Interleavings the parked schedules never bring together are missed; failures do not shrink.",
     "level_note": "Wall-clock time decides only WHICH schedules are exercised, never the verdict. Trusted: the hook placement (before log writes, inside flushPages under the lock, in setCache), Go's race detector.",
